@@ -386,12 +386,12 @@ def oracle(c, impl_steps):
     for t, (st, f) in enumerate(zip(c["steps"], impl_steps)):
         exp = expected_abf_force(c, st, f["cnt"], f["sum"])
         if not all(close(a, b) for a, b in zip(exp, f["cf"])):
-            bad.append(("oracle:applied-force", "step %d: ABF force %s, but ramp(count)*mean(-force) [zero-mean, cap] of the stored arrays gives %s"
+            bad.append(("oracle:cf", "step %d: ABF force %s, but ramp(count)*mean(-force) [zero-mean, cap] of the stored arrays gives %s"
                         % (t, f["cf"], [float(x) for x in exp])))
             break
         o = other_forces(c, st)
         if not all(close(Fr(a) + Fr(b), g) for a, b, g in zip(f["cf"], o, f["af"])):
-            bad.append(("oracle:applied-total", "step %d: force applied to the variables %s is not ABF force %s + restraint force %s" % (t, f["af"], f["cf"], o)))
+            bad.append(("oracle:af", "step %d: force applied to the variables %s is not ABF force %s + restraint force %s" % (t, f["af"], f["cf"], o)))
             break
     # final arrays = attributed samples
     smp = expected_samples(c)
@@ -403,7 +403,7 @@ def oracle(c, impl_steps):
             sm[a * nd + d] -= F[d]
     last = impl_steps[-1]
     if cnt != last["cnt"]:
-        bad.append(("oracle:count", "stored counts %s differ from the number of attributed samples per bin %s" % (last["cnt"], cnt)))
+        bad.append(("oracle:cnt", "stored counts %s differ from the number of attributed samples per bin %s" % (last["cnt"], cnt)))
     elif not all(close(a, b) for a, b in zip(sm, last["sum"])):
         zt = zero_total_steps(c, impl_steps)
         vz = value_zero_steps(c, impl_steps)
@@ -468,7 +468,7 @@ def run_batch(exe, cases, d, tag):
     return rc, parse_impl(o), e
 
 
-def compare_fields(a, b, keys=("bin", "fbin", "cf", "tf", "af", "cnt", "sum")):
+def compare_fields(a, b, keys=("bin", "fbin", "cnt", "sum", "tf", "cf", "af")):
     for k in keys:
         if a.get(k) != b.get(k):
             # -0.0 == 0.0 in python; NaN never equal
@@ -502,6 +502,8 @@ def check(run):
     model, exes = st
     unit = exes["c04unit"]
     d = V.scratch("C04")
+
+    run_witnesses(run, unit, model, d)
 
     n = 240 if quick else 6000
     cases = []
@@ -567,14 +569,18 @@ def check(run):
         for t, (a, b) in enumerate(zip(steps_i, msteps)):
             bad = compare_fields(a, b)
             if bad:
-                run.mismatch("abf:" + bad, {"case": c, "step": t}, {k_: a.get(k_) for k_ in ("bin", "fbin", "cf", "tf", "af", "cnt", "sum")},
+                run.mismatch(bad, {"case": c, "step": t}, {k_: a.get(k_) for k_ in ("bin", "fbin", "cf", "tf", "af", "cnt", "sum")},
                              {k_: b.get(k_) for k_ in ("bin", "fbin", "cf", "tf", "af", "cnt", "sum")})
                 break
         if k < 2:
             run.sample({"scenario": scenario(c)[:60], "final": steps_i[-1] if steps_i else None})
     run.cov["correspondence"].update({"scenarios": len(cases), "steps": sum(len(c["steps"]) for c in cases)})
 
-    # witnesses of the _refuted theorems, replayed on the implementation
+
+
+def run_witnesses(run, unit, model, d):
+    """witnesses of the _refuted theorems, replayed on the implementation (first, so that the minimal
+    cases are the ones written to the replay files)"""
     for wf, sig, judge in ((witness_zero_total, "sample:subtractAppliedForce-zero-total-force", judge_zero_total),
                            (witness_value_zero, "sample:force-dropped-at-value-zero", judge_value_zero),
                            (witness_zero_mean, "force:periodic-zero-mean-during-ramp", judge_zero_mean)):
@@ -596,8 +602,10 @@ def check(run):
             for t, (a, b) in enumerate(zip(im["steps"], ms)):
                 bad = compare_fields(a, b)
                 if bad:
-                    run.mismatch("abf:" + bad, {"case": c, "step": t}, a, b)
+                    run.mismatch(bad, {"case": c, "step": t}, a, b)
                     break
+
+
 
 
 def judge_zero_total(c, steps):
